@@ -4,7 +4,10 @@ use crate::base::*;
 use crate::out::*;
 use serde_json::Value;
 
+pub mod c03;
 pub mod c04;
+pub mod c07;
+pub mod c08;
 pub mod c12;
 pub mod c13;
 pub mod c14;
@@ -52,7 +55,7 @@ pub trait Prop {
 }
 
 pub fn all() -> Vec<Box<dyn Prop>> {
-    vec![Box::new(c04::C04), Box::new(c12::C12), Box::new(c13::C13), Box::new(c14::C14)]
+    vec![Box::new(c03::C03), Box::new(c04::C04), Box::new(c07::C07), Box::new(c08::C08), Box::new(c12::C12), Box::new(c13::C13), Box::new(c14::C14)]
 }
 
 pub fn by_id(id: &str) -> Option<Box<dyn Prop>> {
